@@ -63,7 +63,8 @@ CLAIMED["C15"] = dict(
          "no two AND gates have the same unordered pair of operands (every pushed AND is in the cache; push_and looks it up in "
          "both orders first). All three for every request sequence of any length. PARTIAL: the consequence for data-movement "
          "programs (0 AND gates) needs the language-level model and is explored by compiling generated copy / re-pack "
-         "programs; every circuit built on a run is also scanned for the three conditions. Builder model tied to circuit.rs "
+         "programs; every circuit built on a run (builder runs, the corpus, programs whose failing operations have related "
+         "conditions, generated programs with many failing operations) is also scanned for the three conditions. Builder model tied to circuit.rs "
          "by structural correspondence.",
     design_ref="DESIGN.md §6 C15",
     note="trusted: as C04 (same builder model and correspondence); the scans are exploration, not proof",
